@@ -8,7 +8,7 @@ emit('C01', '''C01 — Only holders of a mutually trusted key can become peers.
    PARTIAL: "two nodes become peers exactly when each trusts the other" has a liveness direction
    (trust => they do become peers) that is decided by the executed correspondence over all trust
    relations (py/props/c01.py), not by a theorem.''',
- ['Base','Core','Conn','PeerCrypto','Node','NodeProofs','InitProofs','TrustProofs'],
+ ['Base','Core','Conn','PeerCrypto','Table','Node','NodeProofs','InitProofs','TrustProofs','NextHopProofs','PcInvariant','AdmissionProofs'],
  [('untrusted_signer_rejected','TrustProofs.v','untrusted_rejected','a message signed with a key outside the trusted list: rejected, state untouched, no reply'),
   ('success_needs_trust','TrustProofs.v','success_needs_trust','a handshake object completes only on a message signed by a trusted key'),
   ('initialized_needs_trust','TrustProofs.v','pc_initialized_needs_trust','PeerCrypto reports Initialized (the only result that creates a peer) only for such a message'),
@@ -16,9 +16,15 @@ emit('C01', '''C01 — Only holders of a mutually trusted key can become peers.
   ('unverifiable_object','NodeProofs.v','pc_handle_unverifiable','object level: unverifiable input leaves every handshake stage exactly as it was, no reply'),
   ('unverifiable_node','NodeProofs.v','unverifiable_no_residue','node level (unknown sender / pending / established): no peer, no pending entry, no table change, no effect'),
   ('unverifiable_sequence','NodeProofs.v','unverifiable_sequence','any sequence of such datagrams from any sources'),
+  ('every_peer_was_admitted','AdmissionProofs.v','every_peer_was_admitted','WHOLE RUNS: every peer a node has in any reachable state (any events, times, salts) was admitted by a handshake message that arrived from that very address and verified under a key of the node\'s trusted list (its own key if none is configured) - induction over arbitrary event sequences; only datagrams can make a peer (interface reads, housekeeping, dials never do), and every handshake object keeps the trusted list it was created with (invariant TI through PcInvariant.v)'),
+  ('objects_keep_trusted_list','AdmissionProofs.v','reachable_ti','the object invariant behind it, for every reachable state: every connection / handshake object of the node carries exactly the configured trusted keys'),
  ],
  tail='''
 (* non-vacuity: WBadInit is unverifiable; a fresh node with one pending handshake is all_encrypted *)
 Example C01_ex_unverifiable : unverifiable WBadInit /\\ unverifiable (WData (DShort 3)) /\\ unverifiable WEmpty.
 Proof. repeat split. Qed.
+
+(* the reachable example state of NextHopProofs has a peer (admitted by A's ping and peng): C01_every_peer_was_admitted is not vacuous *)
+Example C01_ex_peer : ahas (n_peers (nrun salts (node_new cB 1) ex_evs)) 1001 = true.
+Proof. exact (proj2 (proj2 ex_reachable_selects)). Qed.
 ''')
